@@ -3,7 +3,8 @@ package imagefam
 // C17 — symlink resolution in image views terminates with the right answer.
 //
 // Exhaustive enumeration (no sampling below the stated sizes): every symlink graph on n
-// named entries e0..e(n-1), placed alternately in the directories p/ and q/, each entry one
+// named entries e0..e(n-1), placed alternately in the directories p/ and q/ (or, see below,
+// directly in the image root), each entry one
 // of {file, directory, missing, deleted by a later layer, relative symlink to entry j,
 // absolute symlink to entry j} (4+2n states, (4+2n)^n graphs), times every
 // image.Config.MaxSymlinkDepth 0..6 (the depth is a load-time configuration, so each batch
@@ -12,6 +13,16 @@ package imagefam
 // Every entry is queried with Stat, Open (+Stat of the handle, ReadAll) and ReadDir in the
 // intermediate view (whiteout nodes present) and in the final view, and compared with the
 // hop-by-hop resolver of internal/overlay (Appendix A.2).
+//
+// The names of the entries rotate over the batches (c17Layout): next to p/ and q/, entries live
+// directly in the image root under names that begin with "." or ".." (some with a neighbour
+// named the same minus the dots), queried directly and as hop targets.
+//
+// Requirer leg: at some depths (rotating over the batches) the batch image is loaded a second
+// time with a path-set requirer that lists every symlink of its graphs but none of the files
+// the links lead to. In the final view a listed symlink whose chain is within the hop budget
+// must still yield its target (the loader retains the targets of required symlinks), every
+// other answer is the unrestricted one, and files neither listed nor reached are absent.
 //
 // A second, small enumerated leg covers symlinks whose target would leave the image root.
 
